@@ -1,1 +1,355 @@
-/-! C16 - property theorems (declared with their full name `C16.<name>`; helper lemmas go to Lemmas/) -/
+import CohdlVerif.Lemmas.C16Lemmas
+
+/-!
+  C16 - std timing utilities are exact to the clock.  Property theorems about the step functions of
+  Model/C16Timing.lean (which mirror cohdl/std/utility.py and are tied to the emitted designs clock by clock
+  by harness/c16.py).  All statements hold for EVERY duration / period / width / input sequence - there is
+  no bound.  Helper lemmas: Lemmas/C16Lemmas.lean.
+
+  Time convention: "after T clocks" = the registered values visible after T active clock edges; the
+  clock in which a wait is reached is clock 0 of that wait, `resumesAt p k` speaks about clock k after it.
+-/
+open CohdlVerif.C16
+
+/-! ## wait_for / Waiter.wait_for -/
+
+/-- C16 (wait_for, constant duration, also a `Duration` converted at compile time): for every n ≥ 1 - with or
+    without allow_zero, free function or Waiter - wait_for(n) is left pending when it is reached, and the
+    statement after it runs in clock k after that clock IF AND ONLY IF k = n.  (n = 1 is the `await true`
+    path, n ≥ 2 the counter loop loaded with n-1.) -/
+theorem C16.wait_for_exact (n : Nat) (hn : 1 ≤ n) (az : Bool) (wtr : Option Nat) (v : Nat) :
+    ∃ p, reach ⟨.const n, az, wtr⟩ v = .pend p ∧ ∀ k, resumesAt p k = true ↔ k = n := by
+  by_cases h1 : n = 1
+  · subst h1
+    refine ⟨.tick, ?_, resumesAt_tick⟩
+    cases az <;> simp [reach]
+  · refine ⟨.loop (n - 1), ?_, ?_⟩
+    · have h0 : (n == 0) = false := by simp; omega
+      have h1' : (n == 1) = false := by simp; omega
+      simp [reach, h0, h1']
+    · intro k
+      rw [resumesAt_loop]
+      omega
+
+example : ∃ p, reach ⟨.const 5, false, none⟩ 0 = .pend p ∧ resumesAt p 5 = true ∧ resumesAt p 4 = false :=
+  ⟨.loop 4, rfl, rfl, rfl⟩
+
+/-- C16 (wait_for, run-time duration `Unsigned[w]`): for every width and every value 1 ≤ v < 2^w sampled in
+    the clock in which wait_for is reached, the statement after it runs in clock k IFF k = v.  (Same loop,
+    counter loaded with `v - 1`; in particular v = 1 costs exactly one clock although the `await true`
+    path is not taken.) -/
+theorem C16.wait_for_exact_runtime (w v : Nat) (h1 : 1 ≤ v) (h2 : v < 2 ^ w) (az : Bool) (wtr : Option Nat) :
+    ∃ p, reach ⟨.rt w, az, wtr⟩ v = .pend p ∧ ∀ k, resumesAt p k = true ↔ k = v := by
+  refine ⟨.loop (v - 1), ?_, ?_⟩
+  · have h0 : (v == 0) = false := by simp; omega
+    simp [reach, h0, dec_wrap v w h1 h2]
+  · intro k
+    rw [resumesAt_loop]
+    omega
+
+example : ∃ p, reach ⟨.rt 3, true, some 7⟩ 1 = .pend p ∧ resumesAt p 1 = true ∧ resumesAt p 2 = false :=
+  ⟨.loop 0, rfl, rfl, rfl⟩
+
+/-- C16 (n = 0): with allow_zero a zero duration (constant, or run-time value 0) resumes in the same step:
+    the wrapper process executes the statements after the wait in the very clock in which the wait is
+    reached (`cont` falls through); without allow_zero a constant 0 is rejected at compile time; and
+    allow_zero changes nothing for durations ≥ 1. -/
+theorem C16.allow_zero (wtr : Option Nat) (w v i : Nat) (rest : List Wait) :
+    reach ⟨.const 0, true, wtr⟩ v = .now ∧ reach ⟨.rt w, true, wtr⟩ 0 = .now ∧
+    cont v i (⟨.const 0, true, wtr⟩ :: rest) = cont v (i + 1) rest ∧
+    cont 0 i (⟨.rt w, true, wtr⟩ :: rest) = cont 0 (i + 1) rest ∧
+    Wait.wf ⟨.const 0, false, wtr⟩ = false ∧
+    (∀ n, 1 ≤ n → reach ⟨.const n, true, wtr⟩ v = reach ⟨.const n, false, wtr⟩ v) ∧
+    (1 ≤ v → reach ⟨.rt w, true, wtr⟩ v = reach ⟨.rt w, false, wtr⟩ v) := by
+  refine ⟨by simp [reach], by simp [reach], by simp [cont, reach], by simp [cont, reach], by simp [Wait.wf], ?_, ?_⟩
+  · intro n hn
+    have h0 : (n == 0) = false := by simp; omega
+    simp [reach, h0]
+  · intro hv
+    have h0 : (v == 0) = false := by simp; omega
+    simp [reach, h0]
+
+/-- C16 (the wrapper process of the tie, any program of waits): if wait number `pc` is pending as `p` and
+    `resumesAt p (k+1)`, then during the next k clocks - whatever `start` and the run-time port do - the
+    process stays in that wait with an unchanged `stage` output, and in clock k+1 it executes the code
+    after the wait (`cont`).  Together with `wait_for_exact` / `wait_for_exact_runtime`: stage i+1 is
+    shown for exactly n clocks. -/
+theorem C16.wait_for_process_exact (prog : List Wait) (k : Nat) (p : Pend) (s : PState)
+    (ins : List (Bool × Nat)) (st : Bool) (v : Nat)
+    (hp : s.pend = some p) (hr : resumesAt p (k + 1) = true) (hl : ins.length = k) :
+    (prun prog s ins).stage = s.stage ∧ (prun prog s ins).pend ≠ none ∧
+    pstep prog (prun prog s ins) st v = cont v (s.pc + 1) (prog.drop (s.pc + 1)) := by
+  obtain ⟨hpc, hst, p', hp', hstep⟩ := prun_pending prog k p s ins hp hr hl
+  refine ⟨hst, by simp [hp'], ?_⟩
+  simp [pstep, hp', hstep, hpc]
+
+/-- non-vacuity: `await start; stage<=1; wait_for(3); stage<=2; wait_for(nrt = 2); stage<=0` -/
+example : (prun [⟨.const 3, false, none⟩, ⟨.rt 4, false, none⟩] PState.idle
+    [(true, 0), (false, 0), (true, 9), (false, 2), (false, 0), (false, 0), (false, 0)]).stage = 0 ∧
+    (prun [⟨.const 3, false, none⟩, ⟨.rt 4, false, none⟩] PState.idle
+    [(true, 0), (false, 0), (true, 9), (false, 2), (false, 0)]).stage = 2 := by decide
+
+/-! ## DelayLine / delayed -/
+
+/-- C16 (DelayLine, every length n, every initial value, every input stream): after T clocks stage i+1
+    holds the input of clock T-1-i, or the initial value while T ≤ i; the line always has n stages. -/
+theorem C16.delay_line_stages (n : Nat) (init : Cell) (inp : Nat → Nat) (T i : Nat) (hi : i < n) :
+    (dlAt n init inp T).length = n ∧
+    (dlAt n init inp T)[i]? = some (if i < T then some (inp (T - 1 - i)) else init) :=
+  ⟨dlAt_length n init inp T, dlAt_stage n init inp T i hi⟩
+
+/-- C16 (`std.delayed(x, n)` / `DelayLine.last()`): `out (t+n) = in t` for all n ≥ 1, t and streams, and the
+    output shows the initial value for all t < n.  (`x` is the current input, only used for n = 0.) -/
+theorem C16.delay_line (n : Nat) (hn : 1 ≤ n) (init : Cell) (inp : Nat → Nat) (t x : Nat) :
+    dlOut (dlAt n init inp (t + n)) x = some (inp t) ∧
+    (t < n → dlOut (dlAt n init inp t) x = init) := by
+  have hlast : ∀ T, (dlAt n init inp T).getLast? = some (if n - 1 < T then some (inp (T - 1 - (n - 1))) else init) := by
+    intro T
+    rw [List.getLast?_eq_getElem?, dlAt_length]
+    exact dlAt_stage n init inp T (n - 1) (by omega)
+  constructor
+  · have h1 : n - 1 < t + n := by omega
+    have h2 : t + n - 1 - (n - 1) = t := by omega
+    simp [dlOut, hlast, h1, h2]
+  · intro ht
+    have h1 : ¬ (n - 1 < t) := by omega
+    simp [dlOut, hlast, h1]
+
+/-- delay 0 is the input itself -/
+theorem C16.delay_line_zero (init : Cell) (inp : Nat → Nat) (T x : Nat) : dlOut (dlAt 0 init inp T) x = some x := by
+  have h : dlAt 0 init inp T = [] := List.length_eq_zero_iff.mp (dlAt_length 0 init inp T)
+  simp [dlOut, h]
+
+/-- a delay line evaluated under `if en:` is the plain delay line over the enabled clocks -/
+theorem C16.delay_line_enable (s : List Cell) (ins : List (Bool × Nat)) :
+    ins.foldl (fun s i => dlStepEn s i.1 i.2) s = ((ins.filter (·.1)).map (·.2)).foldl dlStep s :=
+  dlRunEn_filter s ins
+
+example : dlOut (dlAt 3 (some 9) (fun t => t + 10) 5) 0 = some 12 ∧ dlOut (dlAt 3 (some 9) (fun t => t + 10) 2) 0 = some 9 := by
+  decide
+
+/-! ## continuous_counter -/
+
+/-- C16 (continuous_counter, constant or run-time-but-held limit L, counter width w with L < 2^w): from any
+    counter value c ≤ L, k clocks without reset give (c + k) mod (L+1): the period is exactly L+1;
+    a reset clock reloads the initial value (0, or L with start_at_limit) from any state. -/
+theorem C16.counter_period (rt : Bool) (w L c : Nat) (hc : c ≤ L) (hL : L < 2 ^ w) (k : Nat) (sal : Bool) (c' : Nat) :
+    ccIter rt w L c k = (c + k) % (L + 1) ∧
+    ccStep rt w sal c' true L = (if sal then L else 0) ∧
+    ccStep rt w sal c false L = ccNext rt w c L :=
+  ⟨ccIter_eq rt w L c hc hL k, by simp [ccStep, ccInit], by simp [ccStep]⟩
+
+example : ccIter false 3 5 0 14 = 2 ∧ ccIter true 3 5 5 1 = 0 := by decide
+
+/-! ## ClockDivider -/
+
+/-- C16 (ClockDivider, constant duration D ≥ 2 or run-time duration held at 1 ≤ D ≤ 2^w, expressed through the
+    counter end E = D - 1 < 2^w): k ≥ 1 clocks after the initial state / after the last reset clock
+
+      * the counter is (c0 + k) mod D with c0 = 0, or D-1 with tick_at_start,
+      * `state` differs from default_state exactly when that is 0 - i.e. when k mod D = 0, resp. k mod D = 1 with
+        tick_at_start: period D, phase fixed by the release of the reset,
+      * `rising` / `falling` are exactly the 0→1 / 1→0 changes of `state` (state before the first clock =
+        default_state),
+
+    and a reset clock restores the initial state from ANY state (so the above holds after every
+    enable / disable sequence, counted from the last reset clock). -/
+theorem C16.divider_period_phase (cfg : DivCfg) (d : Nat) (hE : divEnd cfg d < 2 ^ cfg.w) (k : Nat) (s : Pulse) :
+    let D := divEnd cfg d + 1
+    let c0 := if cfg.tickAtStart then divEnd cfg d else 0
+    let tick : Nat → Bool := fun j => decide (j ≠ 0 ∧ (c0 + j) % D = 0)
+    let st : Nat → Bool := fun j => if tick j then !cfg.default else cfg.default
+    divStep cfg s true d = divInit cfg d ∧
+    divIter cfg d (divInit cfg d) (k + 1) =
+      ⟨(c0 + (k + 1)) % D, st (k + 1), !st k && st (k + 1), st k && !st (k + 1)⟩ ∧
+    (cfg.tickAtStart = false → (tick (k + 1) = true ↔ (k + 1) % D = 0)) ∧
+    (cfg.tickAtStart = true → 2 ≤ D → (tick (k + 1) = true ↔ (k + 1) % D = 1)) := by
+  intro D c0 tick st
+  have hcnt : ∀ j, (divIter cfg d (divInit cfg d) j).cnt = (c0 + j) % D := by
+    intro j
+    have := divIter_cnt cfg d (divInit cfg d) (by simp [divInit, ccInit]; split <;> omega) hE j
+    simpa [divInit, ccInit, c0, D] using this
+  have hst : ∀ j, (divIter cfg d (divInit cfg d) j).st = st j := by
+    intro j
+    cases j with
+    | zero => simp [divIter, divInit, st, tick]
+    | succ j =>
+      have hc := hcnt (j + 1)
+      simp only [divIter, divStep, Bool.false_eq_true, if_false, pulseUpdate] at hc ⊢
+      simp only [hc, st, tick]
+      by_cases h0 : (c0 + (j + 1)) % D = 0 <;> simp [h0]
+  refine ⟨by simp [divStep], ?_, ?_, ?_⟩
+  · have hc := hcnt (k + 1)
+    have hs1 := hst (k + 1)
+    have hs0 := hst k
+    simp only [divIter, divStep, Bool.false_eq_true, if_false, pulseUpdate] at hc hs1 ⊢
+    simp only [Pulse.mk.injEq]
+    refine ⟨hc, hs1, ?_, ?_⟩
+    · rw [hs0, hs1]
+    · rw [hs0, hs1]
+  · intro h
+    simp [tick, c0, h]
+  · intro h hD
+    have := tas_phase (k + 1) D hD
+    simp only [D, Nat.add_sub_cancel] at this
+    simp [tick, c0, h]
+    exact this
+
+/-- the counter end of the two flavours: `D - 1`, for run-time durations in `Unsigned[w]` arithmetic -/
+theorem C16.divider_counter_end (w d : Nat) (default tas : Bool) (h1 : 1 ≤ d) (h2 : d < 2 ^ w) :
+    divEnd ⟨false, w, default, tas⟩ d = d - 1 ∧ divEnd ⟨true, w, default, tas⟩ d = d - 1 :=
+  ⟨rfl, by simp [divEnd, dec_wrap d w h1 h2]⟩
+
+/-- non-vacuity: period 5, tick_at_start: ticks after clocks 1, 6, 11 -/
+example : (divIter ⟨false, 3, false, true⟩ 5 (divInit ⟨false, 3, false, true⟩ 5) 6).st = true ∧
+    (divIter ⟨false, 3, false, true⟩ 5 (divInit ⟨false, 3, false, true⟩ 5) 5).st = false := by decide
+
+/-! ## ToggleSignal -/
+
+/-- C16 (ToggleSignal, constant durations or run-time durations held constant, counter end E = first+second-1
+    < 2^wc): k ≥ 1 clocks after the initial state / last reset clock the counter is k mod (first+second),
+    the state is first_state exactly while that is < first, rising / falling are exactly the changes of
+    the state (state before the first clock = default_state); a reset clock restores the initial state. -/
+theorem C16.toggle_period (cfg : TogCfg) (f g : Nat) (hE : togEnd cfg f g < 2 ^ cfg.wc) (k : Nat) (s : Pulse) :
+    let P := togEnd cfg f g + 1
+    let st : Nat → Bool := fun j =>
+      if j = 0 then cfg.default else (if cfg.first then decide (j % P < f) else !decide (j % P < f))
+    togStep cfg s true f g = togInit cfg ∧
+    togIter cfg f g (togInit cfg) (k + 1) =
+      ⟨(k + 1) % P, st (k + 1), !st k && st (k + 1), st k && !st (k + 1)⟩ := by
+  intro P st
+  have hcnt : ∀ j, (togIter cfg f g (togInit cfg) j).cnt = j % P := by
+    intro j
+    have := togIter_cnt cfg f g (togInit cfg) (by simp [togInit]) hE j
+    simpa [togInit, P] using this
+  have hst : ∀ j, (togIter cfg f g (togInit cfg) j).st = st j := by
+    intro j
+    cases j with
+    | zero => simp [togIter, togInit, st]
+    | succ j =>
+      have hc := hcnt (j + 1)
+      simp only [togIter, togStep, Bool.false_eq_true, if_false, pulseUpdate] at hc ⊢
+      simp only [hc, st]
+      simp
+  refine ⟨by simp [togStep], ?_⟩
+  have hc := hcnt (k + 1)
+  have hs1 := hst (k + 1)
+  have hs0 := hst k
+  simp only [togIter, togStep, Bool.false_eq_true, if_false, pulseUpdate] at hc hs1 ⊢
+  simp only [Pulse.mk.injEq]
+  exact ⟨hc, hs1, by rw [hs0, hs1], by rw [hs0, hs1]⟩
+
+/-- the counter end for constant durations and for run-time durations (both cast to the counter type) -/
+theorem C16.toggle_counter_end (wc f g : Nat) (default first : Bool) (h1 : 1 ≤ f + g) (h2 : f + g < 2 ^ wc) :
+    togEnd ⟨false, wc, default, first⟩ f g = f + g - 1 ∧ togEnd ⟨true, wc, default, first⟩ f g = f + g - 1 := by
+  refine ⟨rfl, ?_⟩
+  simp only [togEnd, if_true]
+  rw [Nat.mod_eq_of_lt h2]
+  exact dec_wrap (f + g) wc h1 h2
+
+/-- C16 (one-step pulses, ClockDivider and ToggleSignal, ANY configuration, state, run-time periods - also
+    changing from clock to clock - and reset / enable sequence): `rising` and `falling` are never high in
+    two consecutive clocks and never together; `rising` marks exactly a 0→1 change of `state`, `falling` a
+    1→0 change. -/
+theorem C16.toggle_pulses_one_step (tc : TogCfg) (dc : DivCfg) (s : Pulse) (r r' : Bool) (f g f' g' d d' : Nat) :
+    let t1 := togStep tc s r f g
+    let t2 := togStep tc t1 r' f' g'
+    let d1 := divStep dc s r d
+    let d2 := divStep dc d1 r' d'
+    (t1.rising = true → t2.rising = false) ∧ (t1.falling = true → t2.falling = false) ∧
+    (t1.rising && t1.falling) = false ∧
+    (r = false → t1.rising = (!s.st && t1.st) ∧ t1.falling = (s.st && !t1.st)) ∧
+    (d1.rising = true → d2.rising = false) ∧ (d1.falling = true → d2.falling = false) ∧
+    (d1.rising && d1.falling) = false ∧
+    (r = false → d1.rising = (!s.st && d1.st) ∧ d1.falling = (s.st && !d1.st)) := by
+  intro t1 t2 d1 d2
+  have ht := two_step_pulses s t1 t2 (togStep_cases tc s r f g) (togStep_cases tc t1 r' f' g')
+  have hd := two_step_pulses s d1 d2 (divStep_cases dc s r d) (divStep_cases dc d1 r' d')
+  refine ⟨ht.1, ht.2.1, ht.2.2, ?_, hd.1, hd.2.1, hd.2.2, ?_⟩
+  · intro hr; subst hr
+    simp [t1, togStep, pulseUpdate]
+  · intro hr; subst hr
+    simp [d1, divStep, pulseUpdate]
+
+/-- non-vacuity: first = 2, second = 3, first_state = True: states 1 0 0 0 1 1 0 0 0 1 ... after clocks 1.. -/
+example : (togIter ⟨false, 3, false, true⟩ 2 3 (togInit ⟨false, 3, false, true⟩) 5).st = true ∧
+    (togIter ⟨false, 3, false, true⟩ 2 3 (togInit ⟨false, 3, false, true⟩) 5).rising = true ∧
+    (togIter ⟨false, 3, false, true⟩ 2 3 (togInit ⟨false, 3, false, true⟩) 6).rising = false := by decide
+
+/-! ## debounce -/
+
+/-- C16 (debounce, every period, initial value and input sequence): the counter starts at period/2, never
+    leaves 0..period, and after any input sequence equals the saturating up/down counter `sat`
+    (+1 up to period for a '1', -1 down to 0 for a '0'); the output becomes '1' exactly in a clock with
+    input '1' in which the counter has reached the period, '0' exactly in a clock with input '0' in which
+    the counter has reached zero, and keeps its value in every other clock. -/
+theorem C16.debounce_is_saturating_counter (period : Nat) (initial : Bool) (bits : List Bool) (b : Bool) :
+    let s := debRun period (debInit period initial) bits
+    (debInit period initial).cnt = period / 2 ∧ (debInit period initial).res = initial ∧
+    s.cnt ≤ period ∧
+    s.cnt = bits.foldl (sat period) (period / 2) ∧
+    (debStep period s b).res =
+      (if b ∧ s.cnt = period then true else if ¬ b ∧ s.cnt = 0 then false else s.res) := by
+  intro s
+  have h0 : (debInit period initial).cnt ≤ period := by simp [debInit]; exact Nat.div_le_self _ _
+  refine ⟨rfl, rfl, debRun_le period bits _ h0, ?_, ?_⟩
+  · show (debRun period (debInit period initial) bits).cnt = _
+    rw [debRun_cnt period bits _ h0]
+    rfl
+  · unfold debStep
+    cases b <;> simp <;> split <;> simp_all
+
+/-- C16 (debounce, closed form on runs): from a state with counter c ≤ period, j consecutive '1's give counter
+    min(c+j, period) and the output is set iff j > period - c; j consecutive '0's give counter c - j and the
+    output is cleared iff j > c.  In particular a burst of at most `period` samples against a saturated
+    counter never changes the output, and period+1 equal samples always force it. -/
+theorem C16.debounce_runs (period j : Nat) (s : Deb) (h : s.cnt ≤ period) :
+    debRun period s (List.replicate j true) = ⟨min (s.cnt + j) period, s.res || decide (period - s.cnt < j)⟩ ∧
+    debRun period s (List.replicate j false) = ⟨s.cnt - j, s.res && decide (j ≤ s.cnt)⟩ :=
+  ⟨debRun_ones period j s h, debRun_zeros period j s⟩
+
+example : (debRun 10 (debInit 10 false) (List.replicate 5 true)).res = false ∧
+    (debRun 10 (debInit 10 false) (List.replicate 6 true)).res = true := by decide
+
+/-! ## Duration.count_periods -/
+
+/-- C16 (count_periods over the rationals; `_partial`: the binary64 evaluation of the real code - `1/val`,
+    `1e12/freq`, the division and `round` on floats - and hence the behaviour within a few ulp of a tie or
+    of the `allowed_delta` threshold are NOT modelled).  With real_result = a/b (a, b > 0):
+      * an exact multiple a = k·b is converted to exactly k, for every allowed_delta,
+      * every accepted result k is nearest (2·|k·b - a| ≤ b) and within the relative tolerance
+        (|k·b - a|·dd ≤ dn·a, i.e. |k - a/b| / (a/b) ≤ dn/dd),
+      * with allowed_delta = 0 exactly the multiples are accepted. -/
+theorem C16.count_periods_exact_partial (a b dn dd k : Nat) (ha : 0 < a) (hb : 0 < b) :
+    (a = k * b → countPeriods a b dn dd = some k) ∧
+    (countPeriods a b dn dd = some k →
+      2 * absDiff (k * b) a ≤ b ∧ absDiff (k * b) a * dd ≤ dn * a) ∧
+    (0 < dd → countPeriods a b 0 dd = some k → a = k * b) := by
+  have hne : ¬ (a = 0 ∨ b = 0) := by omega
+  refine ⟨?_, ?_, ?_⟩
+  · intro h
+    subst h
+    simp [countPeriods, hne, roundHalfEven_mul k b hb, absDiff]
+  · intro h
+    simp only [countPeriods, hne, if_false] at h
+    split at h
+    · next hle =>
+      have hk : roundHalfEven a b = k := by simpa using h
+      subst hk
+      exact ⟨roundHalfEven_nearest a b hb, hle⟩
+    · simp at h
+  · intro hdd h
+    simp only [countPeriods, hne, if_false] at h
+    split at h
+    · next hle =>
+      have hk : roundHalfEven a b = k := by simpa using h
+      subst hk
+      simp only [Nat.zero_mul, Nat.le_zero_eq, Nat.mul_eq_zero] at hle
+      have : absDiff (roundHalfEven a b * b) a = 0 := by omega
+      unfold absDiff at this
+      split at this <;> omega
+    · simp at h
+
+/-- non-vacuity: 20 ns at 1 GHz = 20 ticks; 2.5 rounds to even 2 (accepted with delta 1/4); 2.3 is no multiple -/
+example : countPeriods 20000 1000 1 1000000000 = some 20 ∧ countPeriods 5 2 1 4 = some 2 ∧
+    countPeriods 23 10 1 1000000000 = none := by decide
